@@ -21,6 +21,28 @@ def longest_piece(items, sep):
     return m
 
 
+def literals(text):
+    """character literals of a Fortran statement: from a quote character to the next quote of the SAME kind (a doubled
+    delimiter inside the literal does not end it)"""
+    out, i, n = [], 0, len(text)
+    while i < n:
+        q = text[i]
+        if q == chr(39) or q == chr(34):
+            j = i + 1
+            while j < n:
+                if text[j] == q:
+                    if j + 1 < n and text[j + 1] == q:
+                        j += 2
+                        continue
+                    break
+                j += 1
+            out.append(text[i:j + 1])
+            i = j + 1
+        else:
+            i += 1
+    return out
+
+
 def ok(s, items, sep, width, cont):
     c = cont.splitlines(keepends=True)
     c0, c1 = c[0], (c[1] if len(c) > 1 else '')
@@ -28,6 +50,11 @@ def ok(s, items, sep, width, cont):
     unwrapped = s.replace(c0 + c1, '').replace(c0.strip(' ') + c1.strip(' '), '')
     if unwrapped.replace(' ', '') != flat(items, sep).replace(' ', ''):
         return False
+    # 1b. a continuation marker is never placed inside a character literal (it would add blanks to its value), unless the
+    # literal alone is too long for a line
+    for lit in literals(flat(items, sep)):
+        if len(lit) + len(c0) + len(c1) <= width and lit not in s:
+            return False
     # 2. every line fits unless a single unbreakable piece is too long for any line
     if longest_piece(items, sep) + len(c0) + len(c1) <= width:
         for line in s.split(chr(10)):
@@ -65,6 +92,9 @@ def generate(tier):
         ('deep_indent', "['a' * n1, 'b' * n2, 'c' * 5]", ', ', 22, CONT_DEEP, '', 1, hi, 1, hi),
         ('quoted_string', "['x = ', chr(39) + 's' * n1 + chr(39), ' // ' + 'b' * n2]", '', 16, CONT, '', 1, hi + 6, 1, 8),
         ('chunks_with_spaces', "['call f(' + 'a' * n1 + ', ' + 'b' * n2 + ') ' + 'c' * 4]", '', 14, CONT, '', 1, hi, 1, hi),
+        ('literal_with_blanks', "['call p(', chr(39) + 'a' * n1 + ' ' + 'b' * n2 + ' c' + chr(39), ', xyz, uvw)']", '', 22, CONT, '', 1, 9, 1, 9),
+        ('literal_with_other_quote', "['msg = ' + chr(39) + 'a' * n1 + ' ' + chr(34) + 'b' * n2 + ' q' + chr(34) + ' cd ef' + chr(39) + ' // tail']", '', 26, CONT, '', 1, 9, 1, 9),
+        ('dq_literal_with_apostrophe', "['write(*, *) ' + chr(34) + 'a' * n1 + chr(39) + 's ' + 'b' * n2 + ' cd' + chr(34) + ', val, more']", '', 26, CONT, '', 1, 9, 1, 9),
         ('width_132', "['a' * n1, 'b' * n2, 'c' * 40]", ', ', 132, CONT, '', 120 if tier == 'quick' else 80, 133 if tier == 'quick' else 140, 1, 5 if tier == 'quick' else 30),
     ]
     if tier == 'thorough':
